@@ -11,6 +11,13 @@
 #include "public/module/structs/map.h"
 
 #define MAP_SIZE_DEFAULT            (1 << 8)    /* 256 */
+#ifdef LIBMODULE_VERIF
+#ifdef LIBMODULE_VERIF_MAP_SIZE
+/* Verification hook: start from a tiny table (power of two) so that collisions, wrapped clusters and growth are reachable with a handful of keys */
+#undef MAP_SIZE_DEFAULT
+#define MAP_SIZE_DEFAULT            LIBMODULE_VERIF_MAP_SIZE
+#endif
+#endif
 #define MAP_SIZE_MOD(map, val)      ((val) & ((map)->table_size - 1))
 
 /* Limit for probing is 1/2 of table_size */
